@@ -40,6 +40,14 @@ Theorem C13_cancel_until_drain : forall s final seen0 inner,
   exists u, until_done (S (length (n_q s))) s final None seen0 inner = (seen0, u) /\ (u = UEof \/ u = UNil \/ ctx_end u).
 Proof. intros s final seen0 inner H. apply until_none_ok; [exact H | lia]. Qed.
 
+(* a callback that fails in the middle of a response: the rest that is queued is consumed, the call ends with the
+   callback's error (or the context's error if the queue runs dry first); it never blocks on the missing rest *)
+Theorem C13_cancel_until_failing_callback : forall s final n seen0,
+  quiet s ->
+  exists seen r, until_fail (S (2 * length (n_q s))) s final n seen0 = (seen0 ++ seen, r) /\
+    (exists k, seen = firstn k (n_q s)) /\ (r = FCbErr \/ exists u, r = FEnd u /\ ctx_end u).
+Proof. intros s final n seen0 H. apply until_fail_ok; [exact H | lia]. Qed.
+
 (* (2) A send whose context (or the connection's) is done when the loop starts writes no packet and reports the
    context; in general exactly the packets in front of which the contexts were live are written. *)
 Theorem C13_send_cancelled : forall d pk, d O = true ->
@@ -196,6 +204,7 @@ Print Assumptions C13_cancel_never_blocks.
 Print Assumptions C13_cancel.
 Print Assumptions C13_cancel_until_callback.
 Print Assumptions C13_cancel_until_drain.
+Print Assumptions C13_cancel_until_failing_callback.
 Print Assumptions C13_send_cancelled.
 Print Assumptions C13_send_prefix.
 Print Assumptions C13_after_close.
